@@ -676,3 +676,4 @@ def run(chk, tier):
     chk.guard('C12.g', lambda: rule_random(chk, prog, tier))
     from props import c19
     chk.guard('C19.l', lambda: c19.rule_pp_uaf(chk, prog, tier))      # the tokens an expansion yields must still exist when they are delivered
+    chk.guard('C19.t', lambda: c19.rule_token_spellings(chk, prog, tier))      # ... and a replacement list keeps its spellings: the parser does not free what an expansion handed it
